@@ -340,6 +340,29 @@ fn only_ns_deleted(before: &GTree, after: &GTree) -> Result<(), &'static str> {
     Ok(())
 }
 
+/// Some prefix is declared twice on a root-to-node path (or `xml` is declared at all).
+fn has_shadowing(t: &GTree, above: &mut Vec<usize>) -> bool {
+    let d = decls_of(t);
+    let n0 = above.len();
+    let mut found = false;
+    for (p, _) in &d {
+        if above.contains(p) {
+            found = true;
+        }
+        above.push(*p);
+    }
+    if !found {
+        for k in &t.kids {
+            if has_shadowing(k, above) {
+                found = true;
+                break;
+            }
+        }
+    }
+    above.truncate(n0);
+    found
+}
+
 fn has_prefix_bound_to_empty_uri(t: &GTree) -> bool {
     matches!(t.v, GValue::Namespace(p, 0) if p != 0) || t.kids.iter().any(has_prefix_bound_to_empty_uri)
 }
@@ -357,6 +380,9 @@ pub fn check_dedup(sink: &mut Sink, xot: &mut Xot, vocab: &mut Vocab, t: &GTree,
     match before_str {
         Some(Ok(s)) => {
             sink.stat("dedup.serialised-before");
+            if path.is_empty() && !has_shadowing(t, &mut vec![1]) {
+                sink.stat("dedup.serialised-before.root-call-no-shadowing");
+            }
             match crate::common::guarded(|| xot.to_string(root)) {
                 Some(Ok(s2)) => {
                     // the original, as a document without its declarations
@@ -390,7 +416,14 @@ pub fn check_dedup(sink: &mut Sink, xot: &mut Xot, vocab: &mut Vocab, t: &GTree,
                         _ => sink.stat("dedup.before-text-not-a-document"),
                     }
                 }
-                Some(Err(e)) => fail(sink, "C15", "C15:serialisation-fails-after-dedup", &format!("to_string succeeded before ({}) and fails after deduplicate_namespaces with {:?}", s, e), t, path, "dedup"),
+                Some(Err(e)) => {
+                    // C15_serialises_partial (Lean): impossible for a root call on a tree without shadowing
+                    if path.is_empty() && !has_shadowing(t, &mut vec![1]) {
+                        fail(sink, "C15", "C15:serialisation-fails-after-dedup-without-shadowing", &format!("contradicts theorem C15_serialises_partial: no prefix is declared twice on any path, yet to_string succeeded before ({}) and fails after with {:?}", s, e), t, path, "dedup");
+                    } else {
+                        fail(sink, "C15", "C15:serialisation-fails-after-dedup", &format!("to_string succeeded before ({}) and fails after deduplicate_namespaces with {:?}", s, e), t, path, "dedup");
+                    }
+                }
                 None => fail(sink, "C15", "C15:serialisation-panics-after-dedup", "to_string panics after deduplicate_namespaces", t, path, "dedup"),
             }
         }
